@@ -9,6 +9,7 @@ Query on every path: exists AND NOT allow_overwrite  =>  FileExistsError AND no 
 """
 from __future__ import annotations
 
+import ast
 import os
 import warnings
 
@@ -49,6 +50,8 @@ def configs(tier, seed):
     batches = []
     for i in range(0, len(out), 6):
         batches.append({"name": f"batch-{i // 6}", "items": out[i : i + 6]})
+    for c in runs_configs(tier):
+        batches.append({"name": c["name"], "items": [c]})
     return batches
 
 
@@ -258,7 +261,9 @@ def run_config(batch, rec):
     rec.assume_note("file system answers are solver booleans constrained only by consistency (not file and directory at once; "
                     "non-empty implies directory; parent-is-a-file implies target absent)")
     for cfg in batch["items"]:
-        if cfg["kind"] == "protect":
+        if cfg["kind"] == "runs":
+            _run_runs(cfg, rec)
+        elif cfg["kind"] == "protect":
             _run_protect(rec)
         else:
             _run_item(cfg, rec)
@@ -282,6 +287,8 @@ def replay(data):
     from glotaran.testing import plugin_system as tps
 
     cfg = data.get("item") or data["cfg"]["items"][0]
+    if cfg.get("kind") == "runs":
+        return _replay_runs(dict(data, cfg=cfg))
     env = data.get("env", {})
     with tempfile.TemporaryDirectory() as d:
         base = Path(d) / "out"
@@ -333,3 +340,199 @@ def replay(data):
         elif isinstance(exc, FileExistsError):
             return True, f"{state}: spurious FileExistsError"
         return False, f"{state}: behaves as documented ({exc!r})"
+
+
+# ================================================================================================ run numbering (strings)
+def runs_configs(tier):
+    L = 3 if tier == "quick" else 4
+    out = []
+    digit_sets = [["0000"], ["0009"], ["0000", "0001"], ["0010", "0009"], ["0001", "0001"]]
+    if tier == "thorough":
+        digit_sets += [["0123", "0099"], ["0007", "0012"], ["0099", "0100"]]
+    for ds_ in digit_sets:
+        tag = "-".join(ds_)
+        # two-folder create queries are hard for the string solver (may stay inconclusive): thorough tier only
+        if len(ds_) == 1 or tier == "thorough":
+            out.append({"name": f"runs-create-{tag}", "kind": "runs", "what": "create", "ndirs": len(ds_), "maxlen": L, "digits": ds_})
+        if len(ds_) == 2:
+            out.append({"name": f"runs-fallback-{tag}", "kind": "runs", "what": "fallback", "ndirs": 2, "maxlen": L, "digits": ds_})
+            out.append({"name": f"runs-latest-{tag}", "kind": "runs", "what": "latest", "ndirs": 2, "maxlen": L, "digits": ds_})
+    return out
+
+
+def _runs_setup(cfg):
+    """Interpret the current source; returns dict of terms and side conditions."""
+    from astsmt import interp as I
+
+    funcs, pat = I.load_functions()
+    env = I.Env(cfg["ndirs"])
+    env.hint_digits = list(cfg["digits"])
+    it = I.Interp(env, funcs, {"directory": ("dir",), "_directory": ("dir",), "result_pattern": pat, "items": None})
+    base = z3.String("base")
+    L = cfg["maxlen"]
+    names = [z3.String(f"n{i}") for i in range(cfg["ndirs"])]
+    digs = [z3.StringVal(g) for g in cfg["digits"]]  # run numbers are enumerated per configuration, names stay symbolic
+    wf = [I.alphabet_constraint(base, L), z3.Length(base) >= 1, z3.Not(z3.Contains(base, z3.StringVal("_run_0"))),
+          z3.Not(z3.Contains(base, z3.StringVal("_run_1")))]
+    for i in range(cfg["ndirs"]):
+        wf += [I.alphabet_constraint(names[i], L + 6), z3.Length(names[i]) >= 1,
+               env.names[i] == z3.Concat(names[i], z3.StringVal("_run_"), digs[i])]
+    for i in range(cfg["ndirs"]):
+        for j in range(i):
+            wf.append(z3.Implies(z3.And(env.present[i], env.present[j]), env.names[i] != env.names[j]))
+    # valid lemma (helps the string solver): equal names => folders compare like their 4-digit run numbers
+    for i in range(cfg["ndirs"]):
+        for j in range(cfg["ndirs"]):
+            if i != j:
+                wf.append(z3.Implies(names[i] == names[j], I.lex_le(env.names[i], env.names[j]) == z3.BoolVal(cfg["digits"][i] <= cfg["digits"][j])))
+    exact = [z3.And(env.present[i], names[i] == base) for i in range(cfg["ndirs"])]
+    return I, funcs, env, it, base, names, digs, wf, exact
+
+
+def _run_runs(cfg, rec):
+    from astsmt import interp as I  # noqa: N812
+    from glotaran.project.project import Project
+    from glotaran.project.project_result_registry import ProjectResultRegistry
+
+    rec.encodes(ProjectResultRegistry.previous_result_paths, ProjectResultRegistry.create_result_run_name,
+                ProjectResultRegistry._latest_result_path_fallback, Project.get_latest_result_path)
+    rec.assume_note("results directory = <= 2 well-formed run folders name_run_dddd, names over the alphabet 'ab_run01' (length <= "
+                    "maxlen+6), run numbers enumerated per configuration, result name of length <= maxlen not itself ending in a run specifier; "
+                    "str.replace exact only where the remainder does not contain the prefix again (complement reported outside)")
+    rec.shims.append("AST -> SMT interpretation of the current source (astsmt.interp), z3 4.8.12 string solver")
+    try:
+        I_, funcs, env, it, base, names, digs, wf, exact = _runs_setup(cfg)
+        what = cfg["what"]
+        if what == "create":
+            R = it.run(funcs["create_result_run_name"], [base])
+        elif what == "fallback":
+            R = it.run(funcs["_latest_result_path_fallback"], [base], {"latest": z3.BoolVal(True)})
+        else:
+            suffix = z3.String("sfx")
+            wf.append(z3.Or([suffix == z3.StringVal(g) for g in ("0000", "0003", cfg["digits"][0])]))
+            arg = z3.Concat(base, z3.StringVal("_run_"), suffix)
+            # valid lemma: cutting the 9 characters of the run suffix from base ++ "_run_dddd" leaves base
+            wf.append(z3.SubString(arg, 0, z3.Length(arg) - 9) == base)
+            # compositional: (1) the name handed on equals the result name without run suffix, (2) it is handed to the
+            # fallback lookup unchanged (AST shape), (3) the fallback lookup itself is decided in the runs-fallback-* configurations
+            fn = funcs["get_latest_result_path"]
+            body = [st for st in fn.body if not (isinstance(st, ast.Expr) and isinstance(st.value, ast.Constant))]
+            loc = {"result_name": arg}
+            it.block([st for st in body if isinstance(st, ast.Assign)], loc, z3.BoolVal(True))
+            ret = body[-1]
+            shape_ok = (isinstance(ret, ast.Return) and isinstance(ret.value, ast.Call) and ast.unparse(ret.value.func) == "self.get_result_path"
+                        and ast.unparse(ret.value.args[0]) == "result_name"
+                        and any(k.arg == "latest" and ast.unparse(k.value) == "True" for k in ret.value.keywords))
+            g = [st for st in funcs["get_result_path"].body if isinstance(st, ast.Return)][0]
+            shape_ok = shape_ok and ast.unparse(g.value.func) == "self._result_registry._latest_result_path_fallback" \
+                and ast.unparse(g.value.args[0]) == "result_name"
+            rec.stats.paths += 1
+            for name, goal, fp in [("name handed to the lookup = result name with the run specifier stripped", loc["result_name"] == base, "runs:latest:wrong-run"),
+                                   ("the stripped name goes unchanged to the latest-run fallback lookup", z3.BoolVal(bool(shape_ok)), "runs:latest:plumbing")]:
+                rec.obligations += 1
+                status, out = I.solve(wf + env.constraints + [z3.Not(goal)], timeout_s=60)
+                rec.stats.prove[status if status in ("sat", "unsat") else "unknown"] += 1
+                if status == "unsat":
+                    rec.proved[name] = rec.proved.get(name, 0) + 1
+                elif status == "sat":
+                    vals = I.parse_model(out, ["base", "sfx"])
+                    rec.candidates.append((fp, name, {"env": dict(vals, d0=vals.get("base", "a") + "_run_" + cfg["digits"][0], present0=True), "what": what}))
+                else:
+                    rec.inconclusive.append(f"{cfg['name']}: {name}: string solver unknown")
+                rec.sample({"what": what, "obligation": name, "status": status})
+            rec.witnessed += 1
+            return
+    except I.EncodingLost as ex:
+        rec.errors.append(f"{cfg['name']}: encoding lost: {ex}")
+        return
+    Rname = R[1] if isinstance(R, tuple) else R
+    raises = z3.Or([c for c, _ in env.raises]) if env.raises else z3.BoolVal(False)
+    outside = z3.Or(env.outside) if env.outside else z3.BoolVal(False)
+    n = cfg["ndirs"]
+    any_exact = z3.Or(exact)
+    # specification from the inputs (quantifier free): digits of the highest run of exactly `base`
+    best = digs[n - 1]
+    for i in reversed(range(n - 1)):
+        better = z3.And(exact[i], z3.And([z3.Or(z3.Not(exact[j]), z3.StrToInt(digs[j]) <= z3.StrToInt(digs[i])) for j in range(n) if j != i]))
+        best = z3.If(better, digs[i], best)
+    if n > 1:
+        last_ok = z3.And(exact[n - 1], z3.And([z3.Or(z3.Not(exact[j]), z3.StrToInt(digs[j]) <= z3.StrToInt(digs[n - 1])) for j in range(n - 1)]))
+        # best defaults to the last candidate; correct it when the last one is not exact
+        for i in reversed(range(n - 1)):
+            best = z3.If(z3.And(z3.Not(exact[n - 1]), exact[i]), z3.If(z3.And([z3.Or(z3.Not(exact[j]), z3.StrToInt(digs[j]) <= z3.StrToInt(digs[i])) for j in range(n - 1) if j != i]), digs[i], best), best)
+        del last_ok
+    hyp = wf + env.constraints + [z3.Not(outside)]
+    goals = []
+    prefix = z3.Concat(base, z3.StringVal("_run_"))
+    if what == "create":
+        sfx_ = z3.SubString(Rname, z3.Length(prefix), 4)
+        next_ok = z3.And(z3.PrefixOf(prefix, Rname), z3.Length(Rname) == z3.Length(prefix) + 4, z3.InRe(sfx_, z3.Loop(I.DIGIT, 4, 4)),
+                         z3.StrToInt(sfx_) == z3.StrToInt(best) + 1)
+        spec = z3.If(any_exact, next_ok, Rname == z3.Concat(base, z3.StringVal("_run_0000")))
+        goals.append(("saving never raises for a well-formed results folder", z3.Not(raises), "runs:create:exception", []))
+        goals.append(("the new run folder does not exist yet", z3.Or(raises, z3.And([z3.Implies(env.present[i], env.names[i] != Rname) for i in range(n)])),
+                      "runs:create:not-fresh", []))
+        goals.append(("new run number = highest run of exactly this result name + 1 (0000 if none)", z3.Or(raises, spec),
+                      "runs:create:wrong-number", []))
+    else:
+        not_found = z3.Or([c for c, d in env.raises if "explicit raise" in d] or [z3.BoolVal(False)])
+        spec = z3.If(any_exact, z3.And(z3.Not(not_found), Rname == z3.Concat(prefix, best)), not_found)
+        goals.append(("latest-result lookup resolves to the most recent run of exactly that result name (ValueError if there is none)",
+                      spec, f"runs:{what}:wrong-run", []))
+    rec.stats.paths += 1
+    for name, goal, fp, exvars in goals:
+        rec.obligations += 1
+        # exists-quantified helper strings (best / next digits) must be chosen by the specification, so the negation is
+        # checked with the helper constrained only where the spec constrains it: forall-free by construction of `spec`
+        status, out = I.solve(hyp + [z3.Not(goal)] if not exvars else hyp + [z3.ForAll(exvars, z3.Not(goal))], timeout_s=60)
+        rec.stats.prove[status if status in ("sat", "unsat") else "unknown"] += 1
+        if status == "unsat":
+            rec.proved[name] = rec.proved.get(name, 0) + 1
+        elif status == "sat":
+            vals = I.parse_model(out, ["base", "sfx"] + [f"d{i}" for i in range(n)] + [f"present{i}" for i in range(n)])
+            rec.candidates.append((fp, name, {"env": vals, "what": what}))
+        else:
+            rec.inconclusive.append(f"{cfg['name']}: {name}: string solver unknown")
+        rec.sample({"what": what, "obligation": name, "status": status})
+    rec.witnessed += 1
+
+
+def _replay_runs(data):
+    import tempfile
+    import warnings as _w
+    from pathlib import Path
+
+    from glotaran.project.project import Project
+
+    env, what = data.get("env", {}), data.get("what") or data["cfg"]["what"]
+    base = env.get("base", "a")
+    dirs = [env.get(f"d{i}") for i in range(3) if env.get(f"present{i}") and env.get(f"d{i}")]
+    if not env:
+        # float self-check default scenario
+        base, dirs = "a", ["a_run_0000", "a_run_0001", "ab_run_0005"]
+    with tempfile.TemporaryDirectory() as d, _w.catch_warnings():
+        _w.simplefilter("ignore")
+        project = Project.open(Path(d) / "proj", create_if_not_exist=True)
+        resdir = project._result_registry.directory
+        for name in dirs:
+            (resdir / name).mkdir(parents=True, exist_ok=True)
+            (resdir / name / "result.yml").write_text("x")
+        exact = sorted(n for n in dirs if n.startswith(base + "_run_") and len(n) == len(base) + 9 and n[-4:].isdigit())
+        state = f"results folder {sorted(dirs)}, result name {base!r}"
+        if what == "create":
+            try:
+                new = project._result_registry.create_result_run_name(base)
+            except Exception as ex:  # noqa: BLE001
+                return True, f"{state}: create_result_run_name raised {type(ex).__name__}: {ex}"
+            want = f"{base}_run_{int(exact[-1][-4:]) + 1:04}" if exact else f"{base}_run_0000"
+            return (new != want or new in dirs), f"{state}: new run folder {new!r}, expected {want!r}"
+        arg = base if what == "fallback" else f"{base}_run_{env.get('sfx', '0000')}"
+        try:
+            got = project.get_latest_result_path(arg) if what == "latest" else project._result_registry._latest_result_path_fallback(base, latest=True)
+            got = Path(got).name
+        except ValueError:
+            got = None
+        except Exception as ex:  # noqa: BLE001
+            return True, f"{state}: lookup of {arg!r} raised {type(ex).__name__}: {ex}"
+        want = exact[-1] if exact else None
+        return got != want, f"{state}: latest result for {arg!r} resolves to {got!r}, expected {want!r}"
